@@ -223,3 +223,37 @@ def _weights_named(ctx, ng, name):
     w = ctx.reals(name, ng, ge=0, hint=(0.05, 1))
     ctx.assume(ctx.eq(sum(w[1:], w[0]), 1.0))
     return w
+
+
+@harness('C20', 'regrid', quick=[dict(nn=3, nr=2, ng=2, _shards=4)], thorough=[dict(nn=4, nr=2, ng=2, _shards=8), dict(nn=3, nr=3, ng=3, _shards=8)],
+         functions=FUNCS + ['taurex.opacity.ktables.ktable:KTable.opacity', 'taurex.opacity.opacity:Opacity.opacity'],
+         stubs=STUBS + ['scipy.interpolate.interp1d -> sorted piecewise-linear with fill values', 'np.interp -> numpy-exact contract'],
+         shard_depth=4, outside=['requested ranges selecting fewer than two native points'])
+def regrid(ctx, nn, nr, ng):
+    """Degenerate k-table vs cross-section on a requested grid that is NOT the native one: real KTable.opacity (interp1d
+    path) and real Opacity.opacity (np.interp path) over the same symbolic native grid, requested grid and column: the
+    k-table returns, at every quadrature point, exactly what the cross-section path returns (including points of the
+    requested grid beyond the selected native range, where both clamp to the nearest selected node)."""
+    import scipy.interpolate as si
+    from . import stubs
+    from .c13 import _opacity_double
+    native = ctx.increasing('nat', nn, gt=0)
+    col = ctx.reals('s', nn, ge=0, hint=(0, 5))
+    req = ctx.increasing('req', nr, gt=0)
+    ctx.assume(ctx.and_(ctx.le(req[0], native[1]), ctx.le(native[nn - 2], req[nr - 1])))
+    kcol = np.empty((nn, ng), dtype=object if ctx.sym else float)
+    for i in range(nn):
+        for g in range(ng):
+            kcol[i, g] = col[i]
+    ox = _opacity_double(ctx, native, col, 0)
+    ok = _opacity_double(ctx, native, kcol, ng)
+    env = patched(si, interp1d=stubs.Interp1dModel) if ctx.sym else patched(si)
+    with env:
+        rx = np.asarray(ox.opacity(1000.0, 1e4, req))
+        rk = np.asarray(ok.opacity(1000.0, 1e4, req))
+    ctx.goal('shapes', rx.shape == (nr,) and rk.shape == (nr, ng))
+    if rx.shape != (nr,) or rk.shape != (nr, ng):
+        return
+    for i in range(nr):
+        for g in range(ng):
+            ctx.goal('same_as_cross_section[%d,%d]' % (i, g), ctx.eq(rk[i, g], rx[i]))
